@@ -56,6 +56,23 @@ theorem C13_paging_core {α : Type} [SOrd α] (ks : List α) (hs : Sorted ks) (n
     (cursor : Option α) (h : (Z.Paged.above ks cursor).length < fuel * n) :
     Z.Paged.scanAll ks n fuel cursor = Z.Paged.above ks cursor := Z.Paged.scanAll_eq ks hs n hn fuel cursor h
 
+/-- **MATCH**: a collection scan with a filter pages over the matching members only (what the store does: it skips
+    non-matching members while it counts to COUNT). For every decidable filter `p`: the client loop returns exactly the
+    matching members beyond the start cursor, each once, in key order. (That the real MATCH scan IS the paging over the
+    filtered population is what the `fullm` / `cfullm` lines of protocol `scan` compare, for prefix patterns.) -/
+theorem C13_coll_scan_match (ms : List Bytes) (hs : ms.Pairwise (· < ·)) (hne : ∀ m ∈ ms, m ≠ []) (p : Bytes → Bool)
+    (c : Int) (h1 : 1 ≤ c) (h2 : c ≤ 5000) (start : Bytes) (fuel : Nat)
+    (hfuel : ((ms.filter p).filter (fun k => decide (start < k))).length < fuel * c.toNat) :
+    (collFull (ms.filter p) c false fuel start 0).1 = (ms.filter (fun k => decide (start < k))).filter p := by
+  rw [C13_coll_scan_forward (ms.filter p) (List.Pairwise.sublist List.filter_sublist hs)
+    (fun m hm => hne m (List.mem_filter.mp hm).1) c h1 h2 start fuel hfuel]
+  simp only [List.filter_filter]
+  congr 1
+  funext k
+  exact Bool.and_comm _ _
+
+example : (collFull ([[97], [97, 48], [98], [109]].filter (fun k => [97].isPrefixOf k)) 1 false 10 [] 0).1 = [[97], [97, 48]] := by decide
+
 /-! non-vacuity -/
 example : (collFull [[1], [1, 0], [2], [3]] 2 false 10 [] 0).1 = [[1], [1, 0], [2], [3]] := by decide
 example : (collFull [[1], [1, 0], [2], [3]] 2 true 10 [9] 0).1 = [[3], [2], [1, 0], [1]] := by decide
